@@ -424,7 +424,7 @@ fn run_case<H: HashAlgorithm>(case: &Case, scratch: &Path, out: &mut dyn Write) 
             continue;
         }
         ops.sort();
-        let malform = if u % 3 == 2 { rng.below(6) + 1 } else { 0 };
+        let malform = if u % 2 == 1 { rng.below(6) + 1 } else { 0 };
         let mut foreign_idx: Option<usize> = None;
         // group by terminal path
         let mut groups: BTreeMap<Vec<u8>, (TProof, Vec<u8>, Vec<(Vec<u8>, Option<String>)>)> = BTreeMap::new();
